@@ -61,12 +61,13 @@ func MatchMain(eng *Engine) (bind inputrc.Bind, command func(), prefix bool) {
 	}
 
 	// Find the target action, macro or command.
-	bind, prefix, read, _ := eng.dispatchKeys(binds)
+	bind, prefix, read, matched := eng.dispatchKeys(binds)
 
 	// The binds are sequences of single bytes: a character encoded on
 	// several ones is known to none of them, and is a typed character.
 	if bind.Action == "" && !prefix && len(read) > 0 && read[0] >= utf8.RuneSelf && insertsCharacters(binds) {
 		bind, prefix, read = eng.dispatchCharacter(read)
+		matched = read
 	}
 
 	if !bind.Macro {
@@ -75,10 +76,15 @@ func MatchMain(eng *Engine) (bind inputrc.Bind, command func(), prefix bool) {
 
 	// In the main menu, all keys that have been tested against
 	// the binds will be dropped after command execution (whether
-	// or not there's actually a command to execute).
-	if prefix {
+	// or not there's actually a command to execute) -- except for
+	// the key that ruled out a longer sequence when a shorter one
+	// is run instead: that key belongs to the next sequence.
+	switch {
+	case prefix:
 		core.MatchedPrefix(eng.keys, read...)
-	} else {
+	case bind.Action != "" && len(matched) > 0 && len(matched) < len(read):
+		core.MatchedKeys(eng.keys, matched, read[len(matched):]...)
+	default:
 		core.MatchedKeys(eng.keys, read)
 	}
 
